@@ -1,0 +1,16 @@
+//go:build verif
+
+package route
+
+import "sort"
+
+// Read-only view of the glob cache for the verification harness (property C15).
+func (c *GlobCache) VerifState() (l []string, h, n int, keys []string) {
+	l = append([]string(nil), c.l...)
+	c.m.Range(func(k, _ interface{}) bool {
+		keys = append(keys, k.(string))
+		return true
+	})
+	sort.Strings(keys)
+	return l, c.h, c.n, keys
+}
